@@ -26,6 +26,8 @@ ASSUMPTIONS = [
     "minimal coefficient sum is decided by exhaustive bounded search when it needs <= 600 "
     "free-coordinate assignments, otherwise everything but minimality is judged (skipped: nomin)",
     "seeded problems whose Hadamard minor bound exceeds 32767 are not encoded (32-bit TLC integers)",
+    "a call that neither returns nor raises within 60 s (CBC on an unbounded integer program) is not an "
+    "observation: skipped and counted (call-timeout), its solver process is killed",
     "a refusal (ValueError) is admissible in modes True/False whenever the null space has dimension "
     ">= 2: the statement only demands an answer for single-ray problems and for mode None",
 ]
@@ -164,6 +166,24 @@ def _alarm(signum, frame):
 CALL_TIMEOUT_S = 60
 
 
+def _kill_children():
+    """the CBC solver runs as a child process; an interrupted call must not leave it running"""
+    import os
+    import signal
+    me = str(os.getpid())
+    for pid in os.listdir("/proc"):
+        if not pid.isdigit():
+            continue
+        try:
+            with open("/proc/%s/stat" % pid) as fh:
+                fields = fh.read().rsplit(")", 1)[1].split()
+            if fields[1] == me:
+                os.kill(int(pid), signal.SIGKILL)
+                os.waitpid(int(pid), 0)
+        except (OSError, IndexError):
+            pass
+
+
 def _guarded(fn):
     """run fn() under a wall-clock alarm: a call that neither returns nor raises within the limit is
     not an observation (skipped and counted, never judged)"""
@@ -172,6 +192,9 @@ def _guarded(fn):
     signal.setitimer(signal.ITIMER_REAL, CALL_TIMEOUT_S)
     try:
         return fn()
+    except _CallTimeout:
+        _kill_children()
+        raise
     finally:
         signal.setitimer(signal.ITIMER_REAL, 0)
         signal.signal(signal.SIGALRM, old)
@@ -441,14 +464,14 @@ def run(ctx):
                 batch.append((inp, obs, d, "spec->code", cfg))
         ctx.counters["direct_agree"] += len(agreeing)
         ctx.rng.shuffle(agreeing)
-        batch += agreeing[:100 if ctx.quick else 1000]   # cross-check of the two formulations
+        batch += agreeing[:50 if ctx.quick else 1000]   # cross-check of the two formulations
         if sel:
             ctx.sample({"slice": sl, "problem": problem_text(sel[0]["in"]), "mode": sel[0]["in"]["mode"],
                         "exp": {k: sel[0]["exp"][k] for k in ("kind", "sols", "exc", "c")}}, cap=12)
     ctx.exhaustive = not sampled
 
     # ---- code -> spec: beyond the bounds, judged by TLC
-    inps = _seeded(ctx.rng, 1000 if ctx.quick else 8000)
+    inps = _seeded(ctx.rng, 800 if ctx.quick else 8000)
     outs = ctx.pmap(_observe_inp, inps)
     for inp, obs in zip(inps, outs):
         ctx.ran(matrix_id(inp))
